@@ -1,11 +1,13 @@
+\* exhaustive small scope: all 256 two-variable networks, histories of two public calls
 SPECIFICATION Spec
 CONSTANTS
   MaxCalls = 2
   NetMode = "all2"
   Limits = {0, 2, 3}
   MaxM = {1000}
-  EmitFrom = 2
-  Ops = {"exp", "bfs", "dfs", "min", "skipmin", "skiprem", "seeds"}
+  FailAts = {0}
+  EmitFrom = 99
+  Ops = {"exp", "bfs", "dfs", "min", "skipmin", "skiprem", "block", "scc", "seeds"}
 VIEW view
 INVARIANT Inv_WF
 INVARIANT Inv_PartialFaithful
@@ -14,7 +16,7 @@ INVARIANT Inv_CacheFresh
 INVARIANT Inv_PlainOnly
 INVARIANT Inv_FullExact
 INVARIANT Inv_MinExact
+INVARIANT Inv_RetFalse
 INVARIANT Inv_ASeedsSound
 INVARIANT Inv_Seeds
-INVARIANT Emit
 CHECK_DEADLOCK FALSE
